@@ -72,6 +72,14 @@ def r18(ctx: Ctx) -> RuleReport:
                             cls = t.cls.name
                         elif t.kind == 'ext':
                             cls = t.name.split('.')[-1]
+                        elif t.kind == 'func':
+                            # a helper that builds the exception: the class it returns
+                            for r in [x for x in walk_local(t.func.node) if isinstance(x, ast.Return) and isinstance(x.value, ast.Call)]:
+                                for t2 in ctx.cg.resolve_call(r.value, t.func):
+                                    if t2.kind == 'ext':
+                                        cls = t2.name.split('.')[-1]
+                                    elif t2.kind == 'class':
+                                        cls = t2.cls.name
                 cls = cls or norm(n.exc)
             if cls == 'DecodeError':
                 rep.ok(key, f.loc(n), 'the documented decode error')
